@@ -825,9 +825,24 @@ class Engine:
                     if cnt == 0:
                         if self.on_header:
                             self.on_header(self, st, fr, fr.bb, "enter")
+                        dbg = {}
+                        for nm, pl in fn.debug_all:
+                            mm = re.fullmatch(r"_(\d+)", pl)
+                            if mm:
+                                dbg.setdefault(int(mm.group(1)), nm)
                         for ln in sorted(self.written_locals(fn, bodies[fr.bb])):
-                            ty = fn.local_ty.get(ln, "")
-                            nv = self.fresh_for_type(ty, "hv%d" % ln)
+                            ty = fn.local_ty.get(ln, "").strip()
+                            if getattr(self, "stable_names", False) and ln in dbg and (ty in INT_TY or ty in ("bool", "f64")):
+                                # deterministic name (same variable across the two runs of a lockstep comparison)
+                                nm = "hv_%s_%d" % (dbg[ln], len(st.notes.get("in", ())))
+                                if ty == "bool":
+                                    nv = BoolV(z3.Bool(nm))
+                                elif ty == "f64":
+                                    nv = F64(z3.FP(nm, z3.Float64()))
+                                else:
+                                    nv = Int(z3.BitVec(nm, INT_TY[ty][0]), ty)
+                            else:
+                                nv = self.fresh_for_type(ty, "hv%d" % ln)
                             if nv is not None:
                                 fr.locals[ln] = nv
                         if self.havoc_hook:
